@@ -118,9 +118,8 @@ def run(tier, replay=None):
             raise vlib.ToolError("generator produced no case")
 
     # 4. replay on a real worker
-    legs = [("h1", 3 if thorough else 1)]
-    if thorough:
-        legs.append(("h2c", 1))
+    # H1 backends (the smuggling-relevant side) and h2c backends (mux/converter.rs towards HTTP/2 backends)
+    legs = [("h1", 3 if thorough else 1), ("h2c", 1)]
     total = 0
     distinct = 0
     for backend, variants in legs:
